@@ -61,6 +61,9 @@ def run_case(case):
     b = q.SimulatedBroker(T0, q.SimulatedExchange(T0), dh, initial_funds=case['cash'], fee_model=kit.fee_model(case['fee']))
     b.create_portfolio('p')
     b.subscribe_funds_to_portfolio('p', case['cash'])
+    if case.get('other_portfolio'):
+        b.create_portfolio('z_other')            # orders of 'p' must fill into 'p', whatever else the account holds
+        cls_other = True
     for ai, n in case['holdings']:
         b.submit_order('p', q.Order(T0, POOL[ai], n))
     b.update(T0)
@@ -189,6 +192,10 @@ def run_case(case):
                 n < 0 for n in held.values())):
             nt = True
     cls.add('long_only' if long_only else 'long_short')
+    if case.get('other_portfolio'):
+        cls.add('second_portfolio_on_account')
+        if b.portfolios['z_other'].history or b.portfolios['z_other'].portfolio_to_dict():
+            raise Violation('the other portfolio of the account received fills or cash: %s' % b.portfolios['z_other'].portfolio_to_dict())
     cls.add('rebalances_%d' % len(case['rebalances']))
     return Result(sorted(cls), nontrivial=nt, info=info)
 
@@ -231,7 +238,7 @@ def cases(draw):
         })
     return {'long_only': long_only, 'cash': cash, 'prices': prices, 'holdings': holdings,
             'fee': draw(st.sampled_from([None, None, [0.001, 0.0], [0.001, 0.005]])), 'rebalances': rebs,
-            'reuse': draw(st.sampled_from([True, True, False]))}
+            'reuse': draw(st.sampled_from([True, True, False])), 'other_portfolio': draw(st.booleans())}
 
 
 PARTS = [
